@@ -2,6 +2,7 @@ import Duckling.Model.Compile
 import Duckling.Lemmas.Simple
 import Duckling.Lemmas.Seq
 import Duckling.Lemmas.DelayLine
+import Duckling.Lemmas.Digits
 /-
   C01 — plain Ducky/Flipper scripts pass through unchanged.
 
@@ -254,5 +255,11 @@ example : ("007".toList).all isDigitC = true ∧ digitsVal "007".toList = 7 ∧ 
 theorem C01_delay_guard (n : Nat) (h : n < 10 ^ 1000) : Val.hugeInt (n : Int) = false := by
   simp only [Val.hugeInt, Int.natAbs_natCast, ge_iff_le, decide_eq_false_iff_not, Nat.not_le]
   exact h
+
+/-- **the number a DELAY / DEFAULT_DELAY line is written out with denotes the number the source digits denote** (`DELAY 007` is written
+    `DELAY 7`): the printed form of a natural number is a non-empty digit string whose value is that number -/
+theorem C01_written_number_denotes_value (ds : Str) :
+    digitsVal (natToStr (digitsVal ds)) = digitsVal ds ∧ (natToStr (digitsVal ds)).all isDigitC = true ∧ natToStr (digitsVal ds) ≠ [] :=
+  ⟨digitsVal_natToStr _, (natToStr_digits _).1, (natToStr_digits _).2⟩
 
 end Duckling.Props.C01
